@@ -315,16 +315,16 @@ def gen_history(r, cid, nops=None, comp=None, kind=None, rotations=True, direct=
     nout = 1
     base_ts = r.randrange(10 ** 9, 2 * 10 ** 9)
     aec_keys = [gen_aec(r, P) for _ in range(3)]
-    w = dict(qr=45, aec=13, mm=12, wb=8, counters=5, setactive=5, addbp=3, dblock=4, rotate=5)
+    w = dict(qr=45, aec=13, mm=12, wb=8, counters=5, setactive=5, addbp=3, dblock=4, rotate=5, edit=0)
     if weights:
         w.update(weights)
-    if not rotations: w['rotate'] = 0
+    if not rotations: w['rotate'] = 0; w['edit'] = 0
     if not direct: w['dblock'] = 0
     if not addbp: w['addbp'] = 0
     kinds, wts = zip(*[(k, v) for k, v in w.items() if v > 0])
     for i in range(nops):
         k = r.choices(kinds, wts)[0]
-        bp = m.bps[m.block.bpi]
+        bp = m.block.bp
         tps = bp['tps'] or 1
         usable = m.outputs[-1]['nbps'] if m.blocks_written > 0 else len(m.bps)
         st = gen_stats(r, allow_empty=empties) if r.random() < stats_p else None
@@ -353,6 +353,15 @@ def gen_history(r, cid, nops=None, comp=None, kind=None, rotations=True, direct=
         elif k == 'dblock':
             bi = r.randrange(0, usable)
             op = {'op': 'dblock', 'bp': bi, 'items': gen_direct_items(r, P, m.bps[bi], base_ts, empties)}
+        elif k == 'edit':
+            # hints edited in place through get_active_block_parameters_ref() and taken into use by a rotation:
+            # flush first so that no block filtered under the old hints is pending
+            qrh, sigh, rrh, oth = gen_hints(r)
+            for op in ({'op': 'wb'}, {'op': 'edithints', 'qrh': qrh, 'sigh': sigh, 'rrh': rrh, 'oth': oth}):
+                m.apply(op, i)
+                case['ops'].append(op)
+            op = {'op': 'rotate', 'id': 'o%d' % nout, 'export': True}
+            nout += 1
         else:
             op = {'op': 'rotate', 'id': 'o%d' % nout, 'export': r.random() < 0.5}
             nout += 1
